@@ -18,7 +18,7 @@ from __future__ import annotations
 
 import ast
 
-from ..core import AnalysisError, assignments, call_name, names_in, provenance, short, walk_no_nested
+from ..core import AnalysisError, assignments, call_name, doc_sorted, names_in, provenance, short, walk_no_nested
 from ..util import MUTATORS, calls_named, has_call, kwarg, norm, stored_paths
 from . import c12
 
@@ -239,7 +239,7 @@ def r5_length(chk, f):
     chk.decide(ac == [f"self.get_atom_coord({atomvar})"], "C16.R5", f"{f.key}:atom-position", f.where(), f"a_coord = position of {atomvar}", f"a_coord = {ac}")
     adds = [c for c in walk_no_nested(loop) if isinstance(c, ast.Call) and norm(c.func) == "self.add_atom"]
     chk.require(len(adds) >= 3, f"{f.key}: add_atom sites not found")
-    for i, c in enumerate(sorted(adds, key=lambda x: x.lineno)):
+    for i, c in enumerate(doc_sorted(f.node, adds)):
         coord = c.args[1] if len(c.args) > 1 else None
         p = provenance(f.node, coord, f.params(), asg) if coord is not None else set()
         names = set()
